@@ -65,7 +65,15 @@ func (b *ReadBuffer) add(segIdx int, bs []byte) ([]byte, bool) {
 		// TODO invalid data format. handling error.
 		return nil, false
 	}
-	b.SegCount++
+	if bs == nil {
+		bs = []byte{}
+	}
+	if old := b.Msgs[segIdx]; old != nil {
+		// a datagram that arrives twice fills the same slot: it must not count as another segment
+		b.MsgSize -= len(old)
+	} else {
+		b.SegCount++
+	}
 	b.MsgSize += len(bs)
 	b.Msgs[segIdx] = bs
 	if len(b.Msgs) == b.SegCount {
